@@ -61,9 +61,9 @@ func (v *VerifRate) Reset()           { v.r.reset() }
 
 type VerifMean struct{ m mean }
 
-func (v *VerifMean) Add(n uint64) { v.m.add(n) }
-func (v *VerifMean) Get() float64 { return v.m.get() }
-func (v *VerifMean) Reset()       { v.m.reset() }
+func (v *VerifMean) Add(n uint64)             { v.m.add(n) }
+func (v *VerifMean) Get() float64             { return v.m.get() }
+func (v *VerifMean) Reset()                   { v.m.reset() }
 func (v *VerifMean) Raw() (count, sum uint64) { return v.m.raw() }
 
 func (m *mean) raw() (count, sum uint64) {
